@@ -449,7 +449,9 @@ func (x *Exec) verifyChainState(c *ChainDef, pkgName, f string) {
 				x.obls = append(x.obls, &Obligation{Name: name + "#tool-limit", Func: name, Kind: "tool-limit", Failed: u.msg, Props: c.Props})
 				return
 			}
-			panic(r)
+			x.obls = x.obls[:start]
+			x.obls = append(x.obls, &Obligation{Name: name + "#tool-limit", Func: name, Kind: "tool-limit", Failed: fmt.Sprintf("engine failure: %v", r), Props: c.Props})
+			return
 		}
 	}()
 	conF := x.specs.contracts[keyOf(f)]
